@@ -1,6 +1,10 @@
 // C09 harness (build tag faketime): taskx.Queue under the Go runtime's virtual clock.
 //
-// script:  c09 K <k> close <t|-> cstop <n|-> cons <start> <d0> <d1> ... | <p> <kind> <t> ; <p> <kind> <t> ; ...
+// script:  c09 K <k> close <t|-> cstop <n|-> [opts <tok> ...] cons <start> <d0> <d1> ... | <p> <kind> <t> ; <p> <kind> <t> ; ...
+//   opts: the queue is built with NewQueue(options...) from the listed calls in that order: sz<n> = WithSize(n) (n may be <= 0),
+//         cc0 = WithCloseChan(nil), cc1/cc2 = two real channels (the closer closes channel 1), lg0 = WithErrorLogger(nil),
+//         lg1/lg2 = two counting loggers.  Without opts: WithSize(k), WithCloseChan(chan 1), WithErrorLogger(logger 1).
+//   extra kinds: rs<j> = SendTask(the task this producer's send #j returned), re<j> = SendTask(the taskEmpty its nil send #j returned)
 //   kinds: cb0..cb3 (SendCallback; handler returns pair code: bit0 value non-nil, bit1 err non-nil),
 //          cd0..cd3 (same, the consumer calls Do twice), nil (SendCallback(nil)), tk (SendTask(user task)), tn (SendTask(nil))
 //   times are virtual ns relative to the scenario start; producer p sends at instants = p+1 (mod 16), the consumer
@@ -14,6 +18,8 @@ package main
 import (
 	"errors"
 	"fmt"
+	"io"
+	"os"
 	"reflect"
 	"strconv"
 	"strings"
@@ -49,6 +55,11 @@ type scen struct {
 	ret      []any // what the handler returned on its first run (pointer identity)
 	received []bool
 	left     []bool
+	recvCnt  []int // receptions of the task first sent by g
+	leftCnt  []int // occurrences of that task left in C at the end
+	fresh    bool  // the consumer has just received a task (the next handler run is a reception, not a second Do)
+	draining bool
+	full2    int
 	lastRecv int64
 	curDelay int64
 	lastG    int
@@ -181,8 +192,10 @@ func (sc *scen) handle(g int) (any, error) {
 	sp := sc.sends[g]
 	if sc.finished.Load() {
 		sc.mu.Lock()
-		if !sc.received[g] && !sc.left[g] {
+		sc.lastG = g
+		if sc.draining {
 			sc.left[g] = true
+			sc.leftCnt[g]++
 			sc.L = append(sc.L, tag(sp))
 		}
 		sc.mu.Unlock()
@@ -191,8 +204,14 @@ func (sc *scen) handle(g int) (any, error) {
 	sc.mu.Lock()
 	sc.execCnt[g]++
 	phase := sc.execCnt[g]
-	if phase == 1 || !strings.HasPrefix(sp.kind, "cd") {
-		sc.R = append(sc.R, fmt.Sprintf("%s@%d", tag(sp), sc.lastRecv))
+	if sc.fresh {
+		sc.fresh = false
+		sc.recvCnt[g]++
+		label := tag(sp)
+		if sc.recvCnt[g] > 1 {
+			label = fmt.Sprintf("%s^%d", label, sc.recvCnt[g])
+		}
+		sc.R = append(sc.R, fmt.Sprintf("%s@%d", label, sc.lastRecv))
 		sc.received[g] = true
 	}
 	sc.lastG = g
@@ -266,9 +285,22 @@ func exec(c *hx.Ctx, line string) string {
 	K, _ := strconv.Atoi(h[2])
 	closeAt := parseOpt(h[4])
 	cstop := parseOpt(h[6])
-	cstart, _ := strconv.ParseInt(h[8], 10, 64)
+	ci := 7
+	for ci < len(h) && h[ci] != "cons" {
+		ci++
+	}
+	if ci+1 >= len(h) {
+		return "bad-script"
+	}
+	var optToks []string
+	hasOpts := false
+	if h[7] == "opts" {
+		hasOpts = true
+		optToks = h[8:ci]
+	}
+	cstart, _ := strconv.ParseInt(h[ci+1], 10, 64)
 	var cdel []int64
-	for _, w := range h[9:] {
+	for _, w := range h[ci+2:] {
 		n, _ := strconv.ParseInt(w, 10, 64)
 		cdel = append(cdel, n)
 	}
@@ -311,6 +343,8 @@ func exec(c *hx.Ctx, line string) string {
 	sc.ret = make([]any, n)
 	sc.received = make([]bool, n)
 	sc.left = make([]bool, n)
+	sc.recvCnt = make([]int, n)
+	sc.leftCnt = make([]int, n)
 	byProd := make([][]sendSpec, nP)
 	for _, sp := range sc.sends {
 		byProd[sp.p] = append(byProd[sp.p], sp)
@@ -320,14 +354,74 @@ func exec(c *hx.Ctx, line string) string {
 		deadline = (closeAt + 1024) / 16 * 16
 	}
 
-	cc := make(chan struct{})
-	q := taskx.NewQueue(taskx.WithSize(K), taskx.WithCloseChan(cc), taskx.WithErrorLogger(func(format string, args ...any) {
+	cc := make(chan struct{})  // channel 1: the one the closer closes
+	cc2 := make(chan struct{}) // channel 2: never closed
+	lg1 := func(format string, args ...any) {
 		if strings.Contains(format, "full") {
 			sc.mu.Lock()
 			sc.full++
 			sc.mu.Unlock()
 		}
-	}))
+	}
+	lg2 := func(format string, args ...any) {
+		if strings.Contains(format, "full") {
+			sc.mu.Lock()
+			sc.full2++
+			sc.mu.Unlock()
+		}
+	}
+	var options []taskx.Option
+	if !hasOpts {
+		options = []taskx.Option{taskx.WithSize(K), taskx.WithCloseChan(cc), taskx.WithErrorLogger(lg1)}
+	}
+	for _, tok := range optToks {
+		if len(tok) < 3 {
+			return "bad-script"
+		}
+		n, err := strconv.Atoi(tok[2:])
+		if err != nil {
+			return "bad-script"
+		}
+		switch tok[:2] {
+		case "sz":
+			options = append(options, taskx.WithSize(n))
+		case "cc":
+			switch n {
+			case 0:
+				options = append(options, taskx.WithCloseChan(nil))
+			case 1:
+				options = append(options, taskx.WithCloseChan(cc))
+			default:
+				options = append(options, taskx.WithCloseChan(cc2))
+			}
+		case "lg":
+			switch n {
+			case 0:
+				options = append(options, taskx.WithErrorLogger(nil))
+			case 1:
+				options = append(options, taskx.WithErrorLogger(lg1))
+			default:
+				options = append(options, taskx.WithErrorLogger(lg2))
+			}
+		default:
+			return "bad-script"
+		}
+	}
+	mark := stderrMark()
+	q := taskx.NewQueue(options...)
+	// a send that panics (e.g. inside checkQueueFull) is reported as out=panic
+	safeSend := func(g int, f func()) (ok bool) {
+		defer func() {
+			if r := recover(); r != nil {
+				sc.mu.Lock()
+				sc.rec[g].out = "panic"
+				sc.mu.Unlock()
+				ok = false
+			}
+		}()
+		f()
+		return true
+	}
 
 	now := time.Now().UnixNano()
 	sc.base = (now/1024 + 2) * 1024
@@ -349,7 +443,7 @@ func exec(c *hx.Ctx, line string) string {
 					t := q.SendCallback(nil)
 					tr := sc.rel()
 					sc.mu.Lock()
-					sc.rec[g] = srec{hasTb: true, hasTr: true, tb: tb, tr: tr, out: "imm"}
+					sc.rec[g] = srec{hasTb: true, hasTr: true, tb: tb, tr: tr, out: "imm", task: t}
 					sc.mu.Unlock()
 					gs := "NILTASK"
 					if t != nil {
@@ -377,16 +471,48 @@ func exec(c *hx.Ctx, line string) string {
 					sc.mu.Lock()
 					sc.rec[g] = srec{hasTb: true, tb: tb, task: ut}
 					sc.mu.Unlock()
-					q.SendTask(ut)
+					if !safeSend(g, func() { q.SendTask(ut) }) {
+						continue
+					}
 					tr := sc.rel()
 					sc.mu.Lock()
 					sc.rec[g].hasTr, sc.rec[g].tr = true, tr
 					sc.mu.Unlock()
 				default:
+					if strings.HasPrefix(sp.kind, "rs") || strings.HasPrefix(sp.kind, "re") {
+						// re-send the task an earlier send of this producer returned
+						j, _ := strconv.Atoi(sp.kind[2:])
+						var old taskx.Task
+						if j >= 0 && j < len(byProd[p]) && byProd[p][j].g < g {
+							sc.mu.Lock()
+							old = sc.rec[byProd[p][j].g].task
+							sc.mu.Unlock()
+						}
+						sc.mu.Lock()
+						sc.rec[g] = srec{hasTb: true, tb: tb}
+						sc.mu.Unlock()
+						if old == nil {
+							sc.mu.Lock()
+							sc.rec[g].out = "notask"
+							sc.mu.Unlock()
+							continue
+						}
+						if !safeSend(g, func() { q.SendTask(old) }) {
+							continue
+						}
+						tr := sc.rel()
+						sc.mu.Lock()
+						sc.rec[g].hasTr, sc.rec[g].tr = true, tr
+						sc.mu.Unlock()
+						continue
+					}
 					sc.mu.Lock()
 					sc.rec[g] = srec{hasTb: true, tb: tb}
 					sc.mu.Unlock()
-					task := q.SendCallback(func(args any) (any, error) { return sc.handle(g) })
+					var task taskx.Task
+					if !safeSend(g, func() { task = q.SendCallback(func(args any) (any, error) { return sc.handle(g) }) }) {
+						continue
+					}
 					tr := sc.rel()
 					sc.mu.Lock()
 					sc.rec[g].hasTr, sc.rec[g].tr, sc.rec[g].task = true, tr, task
@@ -431,13 +557,26 @@ func exec(c *hx.Ctx, line string) string {
 				sc.lastRecv = sc.rel()
 				sc.curDelay = cdel[ncons%len(cdel)]
 				sc.lastG = -1
+				sc.fresh = true
 				sc.mu.Unlock()
 				ncons++
 				sc.safeDo(t)
 				sc.mu.Lock()
 				g := sc.lastG
 				again := g >= 0 && strings.HasPrefix(sc.sends[g].kind, "cd") && sc.execCnt[g] == 1
+				delay := sc.curDelay
+				if g < 0 {
+					// no handler ran: a taskEmpty came through the channel
+					sc.fresh = false
+					sc.R = append(sc.R, fmt.Sprintf("E@%d", sc.lastRecv))
+				}
 				sc.mu.Unlock()
+				if g < 0 {
+					sc.sleepUntil(alignUp(sc.rel() + delay))
+					sc.mu.Lock()
+					sc.X = append(sc.X, fmt.Sprintf("E@%d=empty", sc.rel()))
+					sc.mu.Unlock()
+				}
 				if again {
 					sc.safeDo(t)
 				}
@@ -507,7 +646,17 @@ drain:
 	for {
 		select {
 		case t := <-q.C:
+			sc.mu.Lock()
+			sc.draining = true
+			sc.lastG = -1
+			sc.mu.Unlock()
 			_ = t.Do(nil) // records the tag in L (handler in finished mode)
+			sc.mu.Lock()
+			if sc.lastG < 0 {
+				sc.L = append(sc.L, "E")
+			}
+			sc.draining = false
+			sc.mu.Unlock()
 		default:
 			break drain
 		}
@@ -524,6 +673,32 @@ drain:
 	}
 	sc.mu.Lock()
 	defer sc.mu.Unlock()
+	// which sends of a task went into C: a task arrived (received or left in C) as often as it was put; the sends of one
+	// task are all by one producer, in order, so the first `arrivals` returned sends are the puts
+	putOf := make([]bool, n)
+	for g, sp := range sc.sends {
+		if strings.HasPrefix(sp.kind, "rs") || strings.HasPrefix(sp.kind, "re") || sp.kind == "nil" || sp.kind == "tn" {
+			continue
+		}
+		k := sc.recvCnt[g] + sc.leftCnt[g]
+		if sp.kind == "tk" && sc.received[g] && sc.recvCnt[g] == 0 {
+			k++
+		}
+		chain := []int{g}
+		for _, sp2 := range byProd[sp.p] {
+			if strings.HasPrefix(sp2.kind, "rs") {
+				if j, _ := strconv.Atoi(sp2.kind[2:]); j == sp.i {
+					chain = append(chain, sp2.g)
+				}
+			}
+		}
+		for _, x := range chain {
+			if sc.rec[x].hasTr && k > 0 {
+				putOf[x] = true
+				k--
+			}
+		}
+	}
 	var sb strings.Builder
 	sb.WriteString("S")
 	for g, sp := range sc.sends {
@@ -542,7 +717,9 @@ drain:
 				out = "-"
 			case !r.hasTr:
 				out = "blocked"
-			case sc.received[g] || sc.left[g]:
+			case strings.HasPrefix(sp.kind, "re"):
+				out = "ret" // a taskEmpty carries no identity: whether this one went into C is not observable
+			case putOf[g]:
 				out = "put"
 			default:
 				out = "abort"
@@ -572,7 +749,7 @@ drain:
 			sb.WriteString(" " + sc.H[g])
 		}
 	}
-	fmt.Fprintf(&sb, " | F %d | L", sc.full)
+	fmt.Fprintf(&sb, " | F %d %d %d | L", sc.full, sc.full2, defaultLoggerLines(mark))
 	for _, x := range sc.L {
 		sb.WriteString(" " + x)
 	}
@@ -586,4 +763,43 @@ drain:
 	return sb.String()
 }
 
-func main() { hx.Main(gen, exec) }
+// The default errLogger of taskx prints to os.Stderr. Under faketime the process's real stderr is framed (binary), so
+// os.Stderr is pointed at a scratch file; exec counts the "queue is full" lines the default logger wrote per scenario.
+var stderrFile *os.File
+var origStderr = os.Stderr
+
+func defaultLoggerLines(from int64) int {
+	if stderrFile == nil {
+		return 0
+	}
+	end, err := stderrFile.Seek(0, io.SeekEnd)
+	if err != nil || end <= from {
+		return 0
+	}
+	buf := make([]byte, end-from)
+	if _, err := stderrFile.ReadAt(buf, from); err != nil {
+		return 0
+	}
+	n := strings.Count(string(buf), "is full")
+	if end > 1<<22 {
+		_ = stderrFile.Truncate(0)
+	}
+	return n
+}
+
+func stderrMark() int64 {
+	if stderrFile == nil {
+		return 0
+	}
+	end, _ := stderrFile.Seek(0, io.SeekEnd)
+	return end
+}
+
+func main() {
+	if f, err := os.CreateTemp("", "c09-stderr-*"); err == nil {
+		_ = os.Remove(f.Name()) // anonymous scratch file
+		stderrFile = f
+		os.Stderr = f
+	}
+	hx.Main(gen, exec)
+}
